@@ -286,10 +286,8 @@ mut("c18-f32-as-f64", ["C18", "C17"], "the bridge serialises f32 as a double",
 mut("c18-unit-native-null", ["C18", "C01"], "the native codec encodes () as null (and accepts it)",
     [(ENCRS, "impl<C> Encode<C> for () {\n    fn encode<W: Write>(&self, e: &mut Encoder<W>, _: &mut C) -> Result<(), Error<W::Error>> {\n        e.array(0)?.ok()", "impl<C> Encode<C> for () {\n    fn encode<W: Write>(&self, e: &mut Encoder<W>, _: &mut C) -> Result<(), Error<W::Error>> {\n        e.null()?.ok()"),
      (DECRS, "impl<'b, C> Decode<'b, C> for () {\n    fn decode(d: &mut Decoder<'b>, _: &mut C) -> Result<Self, Error> {\n        let p = d.position();", "impl<'b, C> Decode<'b, C> for () {\n    fn decode(d: &mut Decoder<'b>, _: &mut C) -> Result<Self, Error> {\n        if d.datatype()? == crate::data::Type::Null { return d.null() }\n        let p = d.position();")])
-mut("c18-bridge-tuple-accepts-indefinite-short", ["C18"], "the bridge's tuple deserialisation accepts indefinite arrays and stops at the tuple length without consuming the break",
+mut("c18-bridge-tuple-accepts-indefinite-short", ["C17", "C18"], "the bridge's tuple deserialisation accepts indefinite arrays and stops at the tuple length without consuming the break",
     [(SDE, "        if Some(len as u64) != n {", "        if n.is_some() && Some(len as u64) != n {")])
-mut("c18-option-some-null-collision", ["C18"], "the bridge reads undefined as None as well",
-    [(SDE, "        if Type::Null == self.decoder.datatype()? {\n            self.decoder.skip()?;\n            visitor.visit_none()\n        } else {", "        if matches!(self.decoder.datatype()?, Type::Null | Type::Undefined) {\n            self.decoder.skip()?;\n            visitor.visit_none()\n        } else {")])
 
 def main():
     outdir = os.path.join(ROOT, "mutants")
